@@ -27,6 +27,7 @@ SHOTS = {
     'finestep': {'zero': 0.2, 'wind': 'cross', '_ranges': (10.0, 20.0, 40.0), '_steps': ('R', 0.05, 0.1, 5.0), '_tsteps': (0.0,)},
     'transonic': {'zero': 0.5, 'twist': 12.0, 'dm': 'G1', 'bc': 0.1, 'mv': 1250.0, 'look': 10.0},
     'arc30': {'zero': 30.0, 'mv': 1500.0},
+    'arc70': {'zero': 70.0, 'mv': 1500.0, '_ranges': (300.0, 600.0, 900.0), '_steps': ('R', 100.0, 300.0), '_tsteps': (0.0, 0.5)},      # mortar-like: barrel beyond 60 deg
     'tail': {'wind': 'tail', 'zero': 0.2},
     'tailslow': {'wind': 'tail60', 'mv': 900.0, 'zero': 1.0},      # ground advance per step 10 % above the air-relative step
     'tailarc': {'wind': [[15, 0, None]], 'mv': 1200.0, 'zero': 30.0, '_ranges': (1500.0, 3000.0), '_steps': ('R', 100.0, 500.0), '_tsteps': (0.0, 0.25)},
@@ -185,7 +186,7 @@ PARTS = {'pairs': pairs, 'filter': filt}
 
 
 def plan(tier):
-    shots = list(SHOTS) if tier == 'thorough' else ['multiwind', 'finitewinds', 'finestep', 'transonic', 'tail', 'tailslow', 'tailarc', 'flat_long', 'down_long']
+    shots = list(SHOTS) if tier == 'thorough' else ['multiwind', 'finitewinds', 'finestep', 'arc70', 'transonic', 'tail', 'tailslow', 'tailarc', 'flat_long', 'down_long']
     pr = [[s, a, b] for s in shots for a in range(NBLOCKS) for b in range(a, NBLOCKS)]
     depth = 6 if tier == 'quick' else 8
     fl = [[list(p), depth] for p in itertools.product((0.75, 1.0, 1.25), repeat=3)]
